@@ -1,5 +1,7 @@
 import Xp.Proofs.C08Trace
+import Xp.Proofs.C08Live
 import Xp.Proofs.C08Worlds
+import Xp.Gen.C08Skel
 /-
 C08 — teardown happens in dependency order.
 
@@ -19,9 +21,15 @@ informer cache that lags behind by any number of steps, interleaved with user
 deletions, third-party edits of claims / XRs / Usages, garbage collection steps,
 third-party finalizer removals and process crashes): at the moment a controller's
 teardown write is applied, the state-based ordering constraint holds.
-The alphabet contains the deletion branches only (no creation of objects, see
-props/C08.json for what that leaves out); `WF st0` says that the resourceVersions of the
+The alphabet of the `trace_*` theorems contains the deletion branches only (no creation
+of objects); the `trace_*_all` theorems add every creation (users, and the creating writes
+of the live branches of the same reconcilers) and hold for every schedule outside the
+windows of the recorded findings (`Calm`).  `WF st0` says that the resourceVersions of the
 initial store were issued before the next one.
+
+SKELETON theorems (`skeleton_*`): the Go functions the programs mirror still make exactly
+the declared calls in the declared order (regenerated from the source on every run), and
+the programs issue exactly the marked requests along their designated paths.
 -/
 namespace Xp.C08
 open Xp.Gen
@@ -115,6 +123,21 @@ theorem rev_deletion_ignores_spec (n : String) (pr : Obj) (a b : Bool) :
       f (.obj { pr with inactive := a, skipDeps := b }) = f (.obj pr) :=
   ⟨_, rfl, rfl⟩
 
+/-- The claim reconciler looks its XR up by NAME: after reading the claim it continues in
+exactly the same way whatever API version, group or kind `spec.resourceRef` carries
+(`refVer`: the same as the controller's XR kind, another version of it — the XRD's
+referenceable version changed since the reference was written —, or another kind).  A claim
+whose reference is stale in that sense still deletes its XR before it is finalized
+(`claim_fin_after_xr` quantifies over every claim object, hence over every `refVer`). -/
+theorem claim_lookup_ignores_ref_version (n : String) (cm : Obj) (v : String) :
+    ∃ f, claimRec n = .call (.get ⟨.claim, n⟩) f ∧ f (.obj { cm with refVer := v }) = f (.obj cm) :=
+  ⟨_, rfl, rfl⟩
+
+/-- a claim with a stale reference version is torn down like any other: XR deleted, then finalized -/
+example : (let w : St := { claimWorld false with objs := (claimWorld false).objs.map fun o => { o with refVer := "old" } }
+    let s := reach w [.spawn .claim "ns/c", .step 0 .ok, .step 0 .ok, .step 0 .ok, .step 0 .ok]
+    ((find s.st ⟨.claim, "ns/c"⟩).isNone, (find s.st ⟨.xr, "x"⟩).map (·.del))) = (true, some true) := by decide
+
 /-- A Usage that is part of a composition (carries the composite label and names a using
 resource) removes its finalizer only in a reconcile that read the using resource — the
 object of exactly the API group, kind and name `spec.by` gives — as NotFound, and under
@@ -132,6 +155,61 @@ another resourceVersion: the store is unchanged and the reply is Conflict. -/
 theorem stale_write_not_applied (s : St) (k : Key) (rv : Nat) (f : Obj → Obj) (o : Obj)
     (ho : find s k = some o) (hrv : o.rv ≠ rv) : withObj s k rv f = (s, .conflict) := by
   simp [withObj, ho, hrv]
+
+/-! ## regenerated facts: the modelled Go functions still have the modelled call skeleton
+
+`Xp.Gen.c08Skel…` is extracted from the current source tree by go/ast on every check run;
+`skel…` is declared in Xp/Model/C08.lean next to the programs, one entry per call with the
+model step that mirrors it.  `skeleton_X`: the Go function has exactly the declared calls
+in the declared order.  `skeleton_X_pathI`: the requests the model's program issues along
+its designated path I are exactly the declared entries marked with that path, in source
+order — the declared skeleton is a function of the `Prog` tree on those paths. -/
+
+theorem skeleton_claim : Xp.Gen.c08SkelClaim = calls skelClaim := by decide
+theorem skeleton_xr : Xp.Gen.c08SkelXR = calls skelXR := by decide
+theorem skeleton_defined : Xp.Gen.c08SkelDefined = calls skelDefined := by decide
+theorem skeleton_offered : Xp.Gen.c08SkelOffered = calls skelOffered := by decide
+theorem skeleton_revision : Xp.Gen.c08SkelRevision = calls skelRevision := by decide
+theorem skeleton_remove_self : Xp.Gen.c08SkelRemoveSelf = calls skelRemoveSelf := by decide
+theorem skeleton_resolve : Xp.Gen.c08SkelResolve = calls skelResolve := by decide
+theorem skeleton_usage : Xp.Gen.c08SkelUsage = calls skelUsage := by decide
+theorem skeleton_engine_stop : Xp.Gen.c08SkelEngineStop = calls skelEngineStop := by decide
+theorem skeleton_engine_start : Xp.Gen.c08SkelEngineStart = calls skelEngineStart := by decide
+
+/-- claim, Background with a bound XR: Get, Get(XR), Delete(XR), RemoveFinalizer, Status().Update;
+Foreground with a terminating XR: Get, Get(XR), Status().Update -/
+theorem skeleton_claim_paths :
+    pathTags (claimRec "n") claimPaths 0 = onPath 0 skelClaim ∧
+    pathTags (claimRec "n") claimPaths 1 = onPath 1 skelClaim := by decide
+
+theorem skeleton_xr_paths :
+    pathTags (xrRec "n") xrPaths 0 = onPath 0 skelXR ∧ pathTags (xrRec "n") xrPaths 1 = onPath 1 skelXR := by decide
+
+/-- definition, CRD ours and no XR left: Get, Status().Update, Get(CRD), DeleteAllOf, List,
+Stop, Delete(CRD); CRD gone: Get, Status().Update, Get(CRD), Stop, RemoveFinalizer -/
+theorem skeleton_defined_paths :
+    pathTags (definedRec "n") definedPaths 0 = onPath 0 skelDefined ∧
+    pathTags (definedRec "n") definedPaths 1 = onPath 1 skelDefined := by decide
+
+theorem skeleton_offered_paths :
+    pathTags (offeredRec "n") offeredPaths 0 = onPath 0 skelOffered ∧
+    pathTags (offeredRec "n") offeredPaths 1 = onPath 1 skelOffered ∧
+    pathTags (offeredRec "n") offeredPaths 2 = onPath 2 skelOffered := by decide
+
+/-- revision: Get, cache.Delete, [RemoveSelf: Get(Lock), Update(Lock)], RemoveFinalizer -/
+theorem skeleton_revision_paths :
+    pathTags (revRec "n") revPaths 0 =
+      (onPath 0 skelRevision).flatMap (fun t => if t = "RemoveSelf" then onPath 0 skelRemoveSelf else [t]) := by decide
+
+theorem skeleton_usage_paths :
+    pathTags (usageRec "n") usagePaths 0 = onPath 0 skelUsage ∧
+    pathTags (usageRec "n") usagePaths 1 = onPath 1 skelUsage := by decide
+
+/-- the designated paths are real: each one ends in a teardown write or a wait -/
+example : pathTags (definedRec "n") definedPaths 0 = ["get", "setStatus", "get", "deleteAll", "list", "stop", "delete"] ∧
+    pathTags (claimRec "n") claimPaths 0 = ["get", "get", "delete", "removeFin", "setStatus"] ∧
+    pathTags (revRec "n") revPaths 0 = ["get", "cacheDelete", "get", "lockRemove", "removeFin"] ∧
+    pathTags (usageRec "n") usagePaths 0 = ["get", "get", "get", "listUsagesOf", "unlabel", "removeFin"] := by decide
 
 /-! ## trace theorems: every interleaving -/
 
@@ -266,6 +344,227 @@ theorem trace_usage_waits_using (st0 : St) (hw : WF st0) (acts : List Act) (hn :
   cases hfd : find (reach st0 acts).st ⟨u.refKind, u.ref⟩ with
   | none => rfl
   | some o => simp [hfd, hr, hrv] at this
+
+/-! ## every schedule, creations included, minus the windows
+
+The live (not deleted) branches of the same `Reconcile` functions create things: a live
+claim creates / binds its XR (`Live.syncXR`), a live XRD applies its CRD and starts its
+controller (`Live.applyCRD`, `Live.start`), a live revision adds itself to the Lock
+(`Live.lockAdd`), every live object gets its finalizer (`Live.addFin`), a live Usage its
+owner reference and the used resource its label (`Live.usageOwn`, `Live.usageLabel`); users
+create anything (`Act.create`).  These steps are part of the alphabet below, at any moment.
+`Calm` (Xp/Model/C08.lean) excludes exactly this: a creating step taken while an in-flight
+reconcile holds a fact its births threaten (`Birth.threatens`: an object appearing under a
+key read as NotFound / a kind listed as empty; a controller started after it was stopped;
+the owner references of a CRD read as "not ours" replaced; a package added to a Lock read
+without it), and a read answered from a cache older than such a birth.  Those are the
+windows of the recorded findings and their analogues; everything else is inside. -/
+
+/-- General form for ALL schedules: in every configuration reachable by any schedule that
+stays outside the windows — creations by users and creating writes of the live branches
+included — the next request of every in-flight reconcile satisfies `safeReq`. -/
+theorem trace_order_all (st0 : St) (hw : WF st0) (acts : List Act) (hc : Calm { st := st0, ths := [] } acts)
+    (t : Thread) (r : Req) (k : Resp → P)
+    (ht : t ∈ (reach st0 acts).ths) (hp : t.prog = .call r k) :
+    safeReq (reach st0 acts).st t.ctl t.name r = true :=
+  safe_calm st0 hw acts hc t r k ht hp
+
+/-- `trace_order_all` generalises `trace_order`: a creation-free schedule is calm. -/
+theorem creation_free_is_calm (st0 : St) (acts : List Act) (hn : NoCreate acts) : Calm { st := st0, ths := [] } acts :=
+  calm_of_noCreate _ (by intro bs hbs; cases hbs) acts hn
+
+/-- Adding a finalizer and labelling the used resource bring nothing into the world that any
+fact is about: these live steps are calm wherever a schedule takes them. -/
+theorem finalizer_and_label_steps_always_calm (s : Sys) (l : Live)
+    (hl : (∃ k fin, l = .addFin k fin) ∨ (∃ u, l = .usageLabel u) ∨ (∃ k cs, l = .status k cs)) : s.calm (.live l) := by
+  have hb : (Act.live l).births s = [] := by
+    rcases hl with ⟨k, fin, rfl⟩ | ⟨u, rfl⟩ | ⟨k, cs, rfl⟩ <;> rfl
+  refine ⟨?_, fun i j h => by cases h⟩
+  intro t _ _ f _ b hbm; rw [hb] at hbm; cases hbm
+
+/-- What ONE whole live reconcile (`liveActs`) can bring into the world, per controller: a
+live claim only an XR; a live XRD (either controller) only a CRD (new, or with replaced owner
+references) and its own controller; a live revision only the Lock and itself in it; a live
+Usage only an owner reference on itself; the XR reconciler nothing.  Hence the only windows
+a live reconcile can open are about exactly these (`Birth.threatens`), whatever the store. -/
+theorem live_reconcile_births (s : St) (c : Ctl) (n : String) (l : Live) (hl : l ∈ liveActs s c n)
+    (st : St) (b : Birth) (hb : b ∈ l.births st) :
+    match c with
+    | .claim => ∃ x, b = .obj ⟨.xr, x⟩
+    | .xr => False
+    | .defined => (∃ k : Key, k.kind = .crd ∧ (b = .obj k ∨ b = .owners k)) ∨ b = .start (ctrlOf n false)
+    | .offered => (∃ k : Key, k.kind = .crd ∧ (b = .obj k ∨ b = .owners k)) ∨ b = .start (ctrlOf n true)
+    | .rev => b = .obj lockKey ∨ b = .lock n
+    | .usage => b = .owners ⟨.usage, n⟩ := by
+  cases c <;> exact births_of _ n l (liveActs_of s _ n l hl) st b hb
+
+/-- the live reconciles do create things (claim: its XR; revision: its Lock entry) -/
+example : (liveActs (claimWorld false) .claim "ns/c").length = 3 ∧
+    (let s := reach { missWorld with objs := missWorld.objs.map fun o => { o with del := false } } [.live (.addFin ⟨.claim, "ns/c"⟩ c08ClaimFinalizer), .live (.syncXR "ns/c" "x")]
+     (find s.st ⟨.xr, "x"⟩).map (·.ref)) = some "ns/c" ∧
+    (let s := reach revWorld [.live (.lockAdd "p3")]; (find s.st lockKey).map (·.pkgs)) = some ["p1", "p2", "p3"] := by decide
+
+/-- A creating step threatens only the facts about what it creates: a live claim creating
+XR `x` is calm unless an in-flight reconcile has read `x` as NotFound / had Delete(`x`)
+acknowledged / read `x` itself / listed the XRs as empty. -/
+theorem sync_xr_window (s : Sys) (c x : String)
+    (h : ∀ t ∈ s.ths, t.inFlight = true → ∀ f ∈ facts t.hist,
+      f ≠ .gone ⟨.xr, x⟩ ∧ f ≠ .goneOrDel ⟨.xr, x⟩ ∧ f ≠ .noneOf .xr ∧ (∀ a, f ≠ .immut ⟨.xr, x⟩ a)) :
+    s.calm (.live (.syncXR c x)) := by
+  refine ⟨?_, fun i j h => by cases h⟩
+  intro t ht hfl f hf b hbm
+  simp only [Act.births, Live.births, List.mem_singleton] at hbm
+  subst hbm
+  obtain ⟨h1, h2, h3, h4⟩ := h t ht hfl f hf
+  cases f with
+  | gone k => simp only [Birth.threatens, decide_eq_false_iff_not]; intro e; exact h1 (by rw [e])
+  | goneOrDel k => simp only [Birth.threatens, decide_eq_false_iff_not]; intro e; exact h2 (by rw [e])
+  | noneOf kd => simp only [Birth.threatens, decide_eq_false_iff_not]; intro e; exact h3 (by rw [← e])
+  | immut k a => simp only [Birth.threatens, decide_eq_false_iff_not]; intro e; exact h4 a (by rw [e])
+  | stopped c => rfl
+  | pkgsSub ps => simp [Birth.threatens, lockKey]
+  | notInLock n => simp [Birth.threatens, lockKey]
+
+/-- the six readings of `trace_order_all` (same statements as the `trace_*` theorems below,
+for every calm schedule) -/
+theorem trace_claim_fin_after_xr_all (st0 : St) (hw : WF st0) (acts : List Act) (hc : Calm { st := st0, ths := [] } acts)
+    (t : Thread) (kk : Key) (rv : Nat) (k : Resp → P)
+    (ht : t ∈ (reach st0 acts).ths) (hct : t.ctl = .claim)
+    (hp : t.prog = .call (.removeFin kk rv c08ClaimFinalizer) k)
+    (cm : Obj) (hcm : find (reach st0 acts).st kk = some cm) (hrv : cm.rv = rv) (href : cm.ref ≠ "")
+    (x : Obj) (hx : find (reach st0 acts).st ⟨.xr, cm.ref⟩ = some x) :
+    x.del = true ∧ cm.flag = false := by
+  have := trace_order_all st0 hw acts hc t _ k ht hp
+  rw [hct] at this
+  simp only [safeReq, hcm, claimXRGone, hx] at this
+  simpa [href, hrv] using this
+
+theorem trace_crd_after_instances_and_stop_all (st0 : St) (hw : WF st0) (acts : List Act) (hc : Calm { st := st0, ths := [] } acts)
+    (t : Thread) (crd : String) (fg : Bool) (k : Resp → P)
+    (ht : t ∈ (reach st0 acts).ths) (hct : t.ctl = .defined)
+    (hp : t.prog = .call (.delete ⟨.crd, crd⟩ fg) k) :
+    (∀ o ∈ (reach st0 acts).st.objs, o.key.kind ≠ .xr) ∧ compositeCtrl t.name ∉ (reach st0 acts).st.running := by
+  have := trace_order_all st0 hw acts hc t _ k ht hp
+  rw [hct] at this
+  simp only [safeReq, noneOf, bne_self_eq_false, Bool.false_or, Bool.and_eq_true, List.all_eq_true,
+    Bool.not_eq_true'] at this
+  refine ⟨fun o ho => by simpa using this.1 o ho, ?_⟩
+  simpa using this.2
+
+theorem trace_crd_after_instances_and_stop_offered_all (st0 : St) (hw : WF st0) (acts : List Act) (hc : Calm { st := st0, ths := [] } acts)
+    (t : Thread) (crd : String) (fg : Bool) (k : Resp → P)
+    (ht : t ∈ (reach st0 acts).ths) (hct : t.ctl = .offered)
+    (hp : t.prog = .call (.delete ⟨.crd, crd⟩ fg) k) :
+    (∀ o ∈ (reach st0 acts).st.objs, o.key.kind ≠ .claim) ∧ claimCtrl t.name ∉ (reach st0 acts).st.running := by
+  have := trace_order_all st0 hw acts hc t _ k ht hp
+  rw [hct] at this
+  simp only [safeReq, noneOf, bne_self_eq_false, Bool.false_or, Bool.and_eq_true, List.all_eq_true,
+    Bool.not_eq_true'] at this
+  refine ⟨fun o ho => by simpa using this.1 o ho, ?_⟩
+  simpa using this.2
+
+theorem trace_stop_after_instances_all (st0 : St) (hw : WF st0) (acts : List Act) (hc : Calm { st := st0, ths := [] } acts)
+    (t : Thread) (ctl : String) (k : Resp → P)
+    (ht : t ∈ (reach st0 acts).ths) (hct : t.ctl = .defined) (hp : t.prog = .call (.stop ctl) k)
+    (d : Obj) (hd : find (reach st0 acts).st ⟨.xrd, t.name⟩ = some d) :
+    crdNotOurs (reach st0 acts).st d.ref d.uid = true ∨ ∀ o ∈ (reach st0 acts).st.objs, o.key.kind ≠ .xr := by
+  have := trace_order_all st0 hw acts hc t _ k ht hp
+  rw [hct] at this
+  simp only [safeReq, hd, Bool.or_eq_true] at this
+  rcases this with h | h
+  · exact .inl h
+  · right
+    simp only [noneOf, List.all_eq_true] at h
+    exact fun o ho => by simpa using h o ho
+
+theorem trace_stop_after_instances_offered_all (st0 : St) (hw : WF st0) (acts : List Act) (hc : Calm { st := st0, ths := [] } acts)
+    (t : Thread) (ctl : String) (k : Resp → P)
+    (ht : t ∈ (reach st0 acts).ths) (hct : t.ctl = .offered) (hp : t.prog = .call (.stop ctl) k)
+    (d : Obj) (hd : find (reach st0 acts).st ⟨.xrd, t.name⟩ = some d) :
+    crdNotOurs (reach st0 acts).st d.of d.uid = true ∨ ∀ o ∈ (reach st0 acts).st.objs, o.key.kind ≠ .claim := by
+  have := trace_order_all st0 hw acts hc t _ k ht hp
+  rw [hct] at this
+  simp only [safeReq, hd, Bool.or_eq_true] at this
+  rcases this with h | h
+  · exact .inl h
+  · right
+    simp only [noneOf, List.all_eq_true] at h
+    exact fun o ho => by simpa using h o ho
+
+theorem trace_xrd_fin_after_crd_all (st0 : St) (hw : WF st0) (acts : List Act) (hc : Calm { st := st0, ths := [] } acts)
+    (t : Thread) (kk : Key) (rv : Nat) (k : Resp → P)
+    (ht : t ∈ (reach st0 acts).ths) (hct : t.ctl = .defined)
+    (hp : t.prog = .call (.removeFin kk rv c08DefinedFinalizer) k)
+    (d : Obj) (hd : find (reach st0 acts).st kk = some d) :
+    crdNotOurs (reach st0 acts).st d.ref d.uid = true := by
+  have := trace_order_all st0 hw acts hc t _ k ht hp
+  rw [hct] at this
+  simpa [safeReq, hd] using this
+
+theorem trace_xrd_fin_after_crd_offered_all (st0 : St) (hw : WF st0) (acts : List Act) (hc : Calm { st := st0, ths := [] } acts)
+    (t : Thread) (kk : Key) (rv : Nat) (k : Resp → P)
+    (ht : t ∈ (reach st0 acts).ths) (hct : t.ctl = .offered)
+    (hp : t.prog = .call (.removeFin kk rv c08OfferedFinalizer) k)
+    (d : Obj) (hd : find (reach st0 acts).st kk = some d) :
+    crdNotOurs (reach st0 acts).st d.of d.uid = true := by
+  have := trace_order_all st0 hw acts hc t _ k ht hp
+  rw [hct] at this
+  simpa [safeReq, hd] using this
+
+theorem trace_rev_lock_before_fin_all (st0 : St) (hw : WF st0) (acts : List Act) (hc : Calm { st := st0, ths := [] } acts)
+    (t : Thread) (kk : Key) (rv : Nat) (k : Resp → P)
+    (ht : t ∈ (reach st0 acts).ths) (hct : t.ctl = .rev)
+    (hp : t.prog = .call (.removeFin kk rv c08RevisionFinalizer) k)
+    (l : Obj) (hl : find (reach st0 acts).st lockKey = some l) : kk.name ∉ l.pkgs := by
+  have := trace_order_all st0 hw acts hc t _ k ht hp
+  rw [hct] at this
+  simpa [safeReq, hl] using this
+
+theorem trace_usage_waits_using_all (st0 : St) (hw : WF st0) (acts : List Act) (hc : Calm { st := st0, ths := [] } acts)
+    (t : Thread) (kk : Key) (rv : Nat) (k : Resp → P)
+    (ht : t ∈ (reach st0 acts).ths) (hct : t.ctl = .usage)
+    (hp : t.prog = .call (.removeFin kk rv c08UsageFinalizer) k)
+    (u : Obj) (hu : find (reach st0 acts).st kk = some u) (hrv : u.rv = rv) (hf : u.flag = true) (hr : u.ref ≠ "") :
+    find (reach st0 acts).st ⟨u.refKind, u.ref⟩ = none := by
+  have := trace_order_all st0 hw acts hc t _ k ht hp
+  rw [hct] at this
+  simp only [safeReq, hu, present, hf] at this
+  cases hfd : find (reach st0 acts).st ⟨u.refKind, u.ref⟩ with
+  | none => rfl
+  | some o => simp [hfd, hr, hrv] at this
+
+/-- `Calm` is satisfiable by schedules that do create things while a teardown is in flight:
+the XRD teardown of `xrdWorld` interleaved with a finalizer added to the XR, a package
+joining a newly created Lock, another XRD's controller being started and a live claim
+getting its XR — up to the point where the definition reconcile lists the XRs. -/
+example : Calm { st := { xrdWorld with objs := xrdWorld.objs ++ [{ mk ⟨.claim, "ns/c"⟩ 4 [] false with ref := "y" }], nextRv := 5 }, ths := [] }
+    [.spawn .defined "xs.example.org", .step 0 .ok, .live (.addFin ⟨.xr, "x"⟩ "example.com/hold"), .step 0 .ok,
+     .live (.lockAdd "p9"), .step 0 .ok, .live (.start "other.example.org" false), .live (.syncXR "ns/c" "y"), .step 0 .ok] := by
+  refine ⟨⟨by decide, fun _ _ h => by cases h⟩, ⟨by decide, fun _ _ h => by cases h⟩, ⟨by decide, fun _ _ h => by cases h⟩,
+    ⟨by decide, fun _ _ h => by cases h⟩, ⟨by decide, fun _ _ h => by cases h⟩, ⟨by decide, fun _ _ h => by cases h⟩,
+    ⟨by decide, fun _ _ h => by cases h⟩, ⟨by decide, fun _ _ h => by cases h⟩, ⟨by decide, fun _ _ h => by cases h⟩, trivial⟩
+
+/-- The recreation finding through the live branch itself: the definition reconcile has
+listed the XRs as empty; the LIVE claim `ns/c` then syncs (creates) its XR `x`
+(`Live.syncXR`); the reconcile goes on to stop the controller, and to delete the CRD, with
+an instance present.  The step is outside `Calm` (it threatens the fact `noneOf xr` the
+in-flight reconcile holds), which is why `trace_order_all` does not apply. -/
+theorem trace_stop_after_instances_fails_with_live_claim_witness :
+    (reach raceWorld [.spawn .defined "xs.example.org", .step 0 .ok, .step 0 .ok, .step 0 .ok, .step 0 .ok, .step 0 .ok,
+      .live (.syncXR "ns/c" "x")]).violatesAt 0 = true ∧
+    (reach raceWorld [.spawn .defined "xs.example.org", .step 0 .ok, .step 0 .ok, .step 0 .ok, .step 0 .ok, .step 0 .ok,
+      .live (.syncXR "ns/c" "x"), .step 0 .ok]).violatesAt 0 = true ∧
+    ((reach raceWorld [.spawn .defined "xs.example.org", .step 0 .ok, .step 0 .ok, .step 0 .ok, .step 0 .ok, .step 0 .ok]).ths.all
+      fun t => (facts t.hist).any fun f => (Birth.obj ⟨.xr, "x"⟩).threatens f) = true := by decide
+
+/-- The analogous windows of the other births, which need two reconciles of one key at a
+time or a restart in the middle of a teardown: a live definition reconcile of the same XRD
+(working on a copy older than the deletion) starts the controller again after the teardown
+reconcile stopped it and before it deletes the CRD. -/
+theorem trace_crd_after_stop_fails_with_restart_witness :
+    (reach { xrdWorld with objs := xrdWorld.objs.take 2 }
+      [.spawn .defined "xs.example.org", .step 0 .ok, .step 0 .ok, .step 0 .ok, .step 0 .ok, .step 0 .ok, .step 0 .ok,
+       .live (.start "xs.example.org" false)]).violatesAt 0 = true := by decide
 
 /-! ## the restriction to creation-free schedules is necessary -/
 
